@@ -171,6 +171,7 @@ PROPS = {
         level='other',
         contracts=[],
         functions=[],
+        case_functions=[dict(module='vf.contracts.gridsteps', key='pygyro/advection/advection.py::gridStep')],
         bounded=[dict(module='vf.rt.bounded_sim', prop='C05',
                       bound='one Strang step of the driver statements (mechanical slice of fullSimulation.main: timing, printing, '
                             'diagnostics and file output dropped, line numbers in the evidence) on an 8x8x8x8 grid (quick) / 10x8x9x8 '
